@@ -243,3 +243,59 @@ pub fn shape(st: &PushState) -> u64 {
     }
     h
 }
+
+/// Cheap "did anything change" fingerprint: all depths, both flags and the top
+/// item of every value stack (bit patterns / lengths / first elements).
+pub fn quick(st: &PushState) -> u64 {
+    let mut h = shape(st);
+    let mut mix = |x: u64| {
+        h ^= x;
+        h = h.wrapping_mul(0x0000_0100_0000_01B3);
+    };
+    mix(st.quote_name as u64 + 2 * st.send_name as u64);
+    if let Some(v) = st.int_stack.get(0) {
+        mix(*v as u64);
+    }
+    if let Some(v) = st.float_stack.get(0) {
+        mix(v.to_bits() as u64);
+    }
+    if let Some(v) = st.bool_stack.get(0) {
+        mix(*v as u64 + 7);
+    }
+    if let Some(v) = st.name_stack.get(0) {
+        mix(v.len() as u64);
+    }
+    if let Some(v) = st.bool_vector_stack.get(0) {
+        mix(v.values.len() as u64);
+        mix(v.values.iter().take(64).fold(0u64, |a, b| (a << 1) | *b as u64));
+    }
+    if let Some(v) = st.int_vector_stack.get(0) {
+        mix(v.values.len() as u64);
+        mix(v.values.iter().fold(0u64, |a, b| a.wrapping_mul(31).wrapping_add(*b as u64)));
+    }
+    if let Some(v) = st.float_vector_stack.get(0) {
+        mix(v.values.len() as u64);
+        mix(v.values.iter().fold(0u64, |a, b| a.wrapping_mul(31).wrapping_add(b.to_bits() as u64)));
+    }
+    if let Some(x) = st.index_stack.get(0) {
+        mix(x.current as u64 * 131 + x.destination as u64);
+    }
+    if let Some(g) = st.graph_stack.get(0) {
+        mix(g.node_size() as u64 * 17 + g.edge_size() as u64);
+        for (_, n) in g.nodes.iter() {
+            mix(n.get_state() as u64);
+        }
+        for (_, es) in g.edges.iter() {
+            for e in es.iter() {
+                mix(e.get_weight().to_bits() as u64);
+            }
+        }
+    }
+    if let Some(it) = st.code_stack.get(0) {
+        mix(pushr::push::item::Item::size(it) as u64);
+    }
+    if let Some(it) = st.exec_stack.get(0) {
+        mix(pushr::push::item::Item::size(it) as u64);
+    }
+    h
+}
